@@ -41,6 +41,19 @@ THEOREMS = ["Claripy.Props.C12.C12_mro_child", "Claripy.Props.C12.C12_mro_compos
             "Claripy.Props.C12.C12_max_correct", "Claripy.Props.C12.C12_min_correct", "Claripy.Props.C12.C12_child_footprint_extrema",
             "Claripy.Solver.z3Extrema_l1", "Claripy.Solver.child_extremum_foot", "Claripy.Solver.compExtremum_step",
             "Claripy.Solver.comp_histX",
+            # extra constraints: satisfiable(extra) (checkLoop with skip, frame facts of _reabsorb_solver), value queries with extras, histories
+            "Claripy.Props.C12.C12_satisfiable_extra_correct", "Claripy.Props.C12.C12_reabsorb_frames", "Claripy.Props.C12.C12_check_loop_skip",
+            "Claripy.Props.C12.C12_eval_extra_correct", "Claripy.Props.C12.C12_batch_eval_extra_correct",
+            "Claripy.Props.C12.C12_solution_extra_correct", "Claripy.Props.C12.C12_max_extra_correct", "Claripy.Props.C12.C12_min_extra_correct",
+            "Claripy.Props.C12.C12_call_correct_extras", "Claripy.Props.C12.C12_composite_history_extras",
+            "Claripy.Props.C12.C12_composite_history_extras_keeps_invariant", "Claripy.Props.C12.cCompHistE_ok",
+            "Claripy.Solver.checkLoop_skip_spec", "Claripy.Solver.extraTail_spec", "Claripy.Solver.extra_reabsorb_post",
+            "Claripy.Solver.compSatisfiable_extra_spec", "Claripy.Solver.compSatisfiable_extra_eq", "Claripy.Solver.reabsorbFrames",
+            "Claripy.Solver.reabsorbFrames_of_replace", "Claripy.Solver.reabsorbReplaceFrames", "Claripy.Solver.compSatisfiable_extra",
+            "Claripy.Solver.compQuery_judgeX", "Claripy.Solver.compQuery_keepsX", "Claripy.Solver.Equi.extra",
+            "Claripy.Solver.compEvalX_step", "Claripy.Solver.compBatchEvalX_step", "Claripy.Solver.compSolutionX_step",
+            "Claripy.Solver.compMaxX_step", "Claripy.Solver.compMinX_step", "Claripy.Solver.comp_stepE", "Claripy.Solver.comp_histE",
+            "Claripy.Solver.comp_histE_inv", "Claripy.Solver.InScopeCX.toCE",
             "Claripy.Solver.CInv.of_world", "Claripy.Solver.compQuery_keeps", "Claripy.Solver.compTruth_keeps",
             "Claripy.Solver.solverForNames_one", "Claripy.Solver.child_truth_foot", "Claripy.Solver.MCInv.evalExh",
             "Claripy.Solver.MCInv.opt"]
